@@ -25,7 +25,8 @@ CASE_TYPE = "C06_case"
 HARNESS = "c06"
 KNOWN = {1: "C06-inforeply-todo", 2: "C06-gap-range-loop", 3: "C06-snset-member-overflow",
          4: "C06-acknack-base-underflow", 5: "C06-heartbeat-first-underflow", 6: "C06-seqnum-max-overflow",
-         7: "C06-frag-reassembly-cost", 8: "C06-decoder-fragset"}
+         7: "C06-frag-reassembly-cost", 8: "C06-decoder-fragset", 9: "C06-xtypes-sequence-length",
+         10: "C06-xtypes-emheader-overflow"}
 RULE = ("a case is a scenario (3 simulated participants, knobs: fragment size, samples written before the injection, "
         "reliable / best-effort victim reader) plus 1..60 datagrams injected into the victim, each observed separately "
         "(PANIC file:line through a panic hook, HANG through a per-datagram watchdog, bytes requested from a counting "
@@ -42,7 +43,7 @@ TRUSTED = ["theories/Wire/RecvModel.v is a hand transcription of message_receive
            "the initial model state of a case is MEASURED from the user traffic of the set-up phase (last HEARTBEAT / "
            "ACKNACK per endpoint pair, samples delivered) by props/C06.py",
            "memory of the real code is what its global allocator is asked for (counting allocator in the harness); "
-           "HANG is a 6 s (quick) wall-clock watchdog per datagram"]
+           "HANG is a 5 s (quick) / 20 s (thorough) wall-clock watchdog per datagram"]
 ASSUMPTIONS = ["debug profile (overflow checks on): the arithmetic panics recorded as known findings wrap silently in a release build",
                "the theorems cover the RTPS message receiver and the stateful reader / writer handlers; DCPS processing of accepted "
                "samples (deserialization of user and discovery data, type lookup, QoS matching, listeners) is covered by the "
@@ -51,7 +52,7 @@ ASSUMPTIONS = ["debug profile (overflow checks on): the arithmetic panics record
                "fragment buffer of a matched writer)"]
 
 BIN = os.path.join(core.CACHE, "target", "debug", "c06")
-LIM_MS = {"quick": 6000, "search": 6000, "thorough": 20000}
+LIM_MS = {"quick": 5000, "search": 5000, "thorough": 20000}
 
 # ------------------------------------------------------------------------------- decoding
 def u16(b, o, be):
@@ -262,7 +263,7 @@ def state_term(m):
 # -------------------------------------------------------------------------------- harness I/O
 SITE_FILES = {"rtps/message_receiver.rs": 1, "dcps/dcps_domain_participant/communication_methods.rs": 2,
               "rtps/stateful_reader.rs": 3, "rtps/writer_proxy.rs": 4, "rtps/stateful_writer.rs": 5,
-              "rtps_messages/submessage_elements.rs": 6}
+              "rtps_messages/submessage_elements.rs": 6, "xtypes/deserializer.rs": 7}
 
 
 def site_code(s):
@@ -486,9 +487,8 @@ def guided(lim=6000):
     for pfx in (PFX_U, S, V):
         g.append((1, [W.msg(pfx, W.info_reply([W.locator()]))]))
     g.append((1, [W.msg(S, W.heartbeat(EID_R, EID_W, 1, 0, 3), W.info_reply([], multicast=[]))]))
-    for pfx in (S, V, H):
-        g.append((2, [W.msg(pfx, W.gap(EID_R, EID_W, 1, 2**62))]))
-    g.append((2, [W.msg(S, W.gap(EID_R, EID_W, I64MIN, I64MAX))]))
+    g.append((2, [W.msg(S, W.gap(EID_R, EID_W, 1, 2**62))]))
+    g.append((2, [W.msg(V, W.gap(EID_R, EID_W, I64MIN, I64MAX))]))
     g.append((3, [W.msg(S, W.gap(EID_R, EID_W, I64MAX - 3, I64MAX - 3, bits=[10]))]))
     g.append((3, [W.msg(S, W.acknack(EID_R, EID_W, I64MAX - 1, bits=[5], count=9))]))
     g.append((3, [W.msg(S, W.acknack(EID_R, EID_W, I64MAX - 10, bits=[10], count=9))]))
@@ -505,7 +505,18 @@ def guided(lim=6000):
     g.append((6, [W.msg(S, W.nack_frag(EID_R, EID_W, I64MAX, 1, bits=[0], count=3))]))
     g.append((6, [W.msg(S, W.heartbeat(EID_R, EID_W, I64MAX, I64MAX, 7, final=True)),
                   W.msg(S, W.data_frag(EID_R, EID_W, I64MAX, 1, 1, 8, 8, bytes(8))), W.msg(S, W.heartbeat(EID_R, EID_W, 1, 1, 9))]))
-    n = 600 if lim <= 6000 else 1200
+    # a captured SEDP topic DATA of S, next sequence number, dependent type-id count = 0x02000000..:
+    # Vec::with_capacity(1.6 GB) in the XTypes deserializer (class 9)
+    g.append((9, [bytes.fromhex(
+        "52545053020401140506070801020304020000000e010c000506070801020304010000000901080001000000000000001507c80000001000000002c7000002"
+        "c20000000002000000700010000506070801020304020000000000000a01000000000300005a0010000506070801020304020000000000000a0500080002"
+        "00000074000000070010000a0000004b657965644461746100000075005c0058000000011000502400000014000000f120745494de5bc8cf80fffdee7b14"
+        "0041000000000000000400000000000000021000502400000014000000f2e81d3ca72c46508965a1e6896d97006400000000000000040000000000000201"
+        "00000007011c00000002c7000002c20000000001000000000000000100000001000000")]))
+    # the same datagram with a harmless length, EMHEADER length code 6 and NEXTINT 0x40000001: 4 * NEXTINT
+    d9 = g[-1][1][0].hex().replace("040000000000000201", "040000000000000001")
+    g.append((10, [bytes.fromhex(d9.replace("0110005024000000", "0110006001000040", 1))]))
+    n = 600 if lim <= 6000 else 1300
     g.append((7, [W.msg(S, *[W.data_frag(EID_R, EID_W, 1, i + 1, 65535, 1, 65535 * n, b"x") for i in range(n)])]))
     return g
 
@@ -588,6 +599,78 @@ def random_dgram(r):
     return W.header(rprefix(r)) + bytes(r.getrandbits(8) for _ in range(r.choice([4, 8, 40, 300])))
 
 
+def payload_span(d, off, fl, body):
+    """(start, end) in d of the serialized payload of the DATA submessage at off"""
+    be = not (fl & 1)
+    o2q = u16(body, 2, be) + 4
+    pl = payload_len(body, o2q, be, bool(fl & 2))
+    if pl is None:
+        return None
+    end = off + 4 + len(body)
+    return end - pl, end
+
+
+def deep_dgram(r, real_meta, real_user, seq):
+    """a REAL discovery / user DATA datagram of S re-sent with the next expected sequence number and
+    a mutated payload: reaches the DCPS code behind the readers (deserialization, matching)"""
+    src = r.choice(real_meta if (real_meta and r.random() < 0.7) else (real_user or real_meta))
+    d = src
+    if d[8:20] == PFX_H:
+        d = d[:8] + PFX_S + d[20:]
+    subs = [x for x in W.split(d) if x[1] == 0x15]
+    if not subs:
+        return None
+    off, kind, fl, n, body = subs[0]
+    be = not (fl & 1)
+    wid = bytes(body[8:12])
+    span = payload_span(d, off, fl, body)
+    if span is None or span[1] - span[0] < 4:
+        return None
+    # sequence number: the next one this writer proxy expects (SPDP is stateless: any)
+    k = seq.get(wid, 1) + 1
+    seq[wid] = k
+    d = W.set_field(d, off, (12, 8, "sn"), k)
+    b = bytearray(d)
+    a, e = span
+    # PID_TYPE_INFORMATION (0x75) is decoded by the XTypes deserializer, whose with_capacity(wire
+    # length) is a recorded finding: most mutations stay out of it so that the rest is explored too
+    avoid = []
+    if d[a:a + 2] in (b"\x00\x03", b"\x00\x02"):
+        q = a + 4
+        while q + 4 <= e:
+            pid, n = struct.unpack_from("<HH", d, q)
+            if pid == 1:
+                break
+            if pid == 0x75:
+                avoid.append((q, q + 4 + n))
+            q += 4 + n
+    tinfo = r.random() < 0.12
+    for _ in range(r.choice([0, 1, 1, 2, 3, 6])):
+        m = r.random()
+        i = r.randrange(a, e)
+        if not tinfo and any(x <= i < y or x <= i + 3 < y for x, y in avoid):
+            continue
+        if m < 0.35:
+            b[i] ^= 1 << r.randrange(8)
+        elif m < 0.6:
+            v = r.choice([0, 1, 0xff, 0x7f, 0x80])
+            b[i] = v
+        elif m < 0.85 and i + 4 <= e:
+            i -= (i - a) % 4
+            b[i:i + 4] = struct.pack("<I", r.choice([0, 1, 2, 0xffffffff, 0x7fffffff, 0x80000000, 0xffff, 0x10000, 256, e - i, e - i - 4, e - i + 1]))
+        elif i + 2 <= e:
+            i -= (i - a) % 2
+            b[i:i + 2] = struct.pack("<H", r.choice([0, 1, 4, 0xffff, 0x7fff, 0x8000, 0x3f01, 0x3f02, 0x0075, 0x0072]))
+    if r.random() < 0.1:
+        b = b[:r.randint(a, e)]
+    # announcing the GUID of the healthy peer (or of the victim) with other locators redirects that
+    # peer's traffic: identity spoofing through discovery data is a matter of DDS-Security, not of
+    # robustness, and would make the liveness probe fail for a reason outside this property
+    if PFX_H in bytes(b[a:]) or PFX_V in bytes(b[a:]):
+        return None
+    return bytes(b)
+
+
 _CAPTURE = {}
 
 
@@ -604,12 +687,14 @@ def rknobs(r):
 
 
 def gen(r, tier):
-    ncases, per = {"quick": (84, 40), "search": (160, 40), "thorough": (900, 60)}[tier]
+    ncases, per = {"quick": (100, 40), "search": (160, 40), "thorough": (360, 60)}[tier]
     lim = LIM_MS[tier]
     cases = []
     cap = captured(dict(frag=64, a=2, m=2, j=1, rel=1))
     real = [b for (h, b) in cap if len(b) >= 20]
     real_user = [b for (h, b) in cap if not h.endswith("m")]
+    real_meta_s = [b for (h, b) in cap if h == "2>1m" and any(x[1] == 0x15 for x in W.split(b))]
+    real_user_s = [b for (h, b) in cap if h == "2>1" and any(x[1] == 0x15 for x in W.split(b))]
     g = guided(lim)
     pool_classy = []
     # every guided class witness ends one case; its stage-setting datagrams stay directly before it
@@ -617,9 +702,15 @@ def gen(r, tier):
         knobs = rknobs(r)
         knobs["lim"] = lim
         ds = []
+        deep = (i % 5 == 4)           # every fifth case: mostly datagrams that reach the DCPS code
+        seq = {EID_W: knobs["j"]}
         while len(ds) < per:
             k = r.random()
-            if k < 0.40:
+            if deep and k < 0.8:
+                d = deep_dgram(r, real_meta_s, real_user_s, seq)
+                if d is None:
+                    continue
+            elif k < 0.40:
                 d = clean_dgram(r)
             elif k < 0.75 and real:
                 d = mutate(r, r.choice(real_user if (real_user and r.random() < 0.6) else real))
@@ -637,7 +728,7 @@ def gen(r, tier):
         tail = None
         if i < len(g):
             # a model-guided witness runs alone: earlier datagrams could raise the counts it must exceed
-            cases.append((dict(knobs, probe=0, rel=1, m=max(1, knobs["m"])), list(g[i][1]), "guided"))
+            cases.append((dict(knobs, probe=0, rel=1, m=max(1, knobs["m"]), j=0), list(g[i][1]), "guided"))
             continue
         elif i % 3 == 0 and pool_classy:
             tail = pool_classy.pop(r.randrange(len(pool_classy)))
@@ -657,8 +748,27 @@ def gen(r, tier):
 
 def corpus():
     base = dict(frag=1344, a=1, m=1, j=0, rel=1, lim=6000)
+    S = PFX_S
+    nack1 = [W.msg(S, W.data_frag(EID_R, EID_W, 1, 1, 1, 0, 8, bytes(8))),        # fragment size 0: ignored
+             W.msg(S, W.data_frag(EID_R, EID_W, 1, 1, 2, 8, 8, bytes(8))),        # every fragment number buffered, count sum 2 <> 1
+             W.msg(S, W.heartbeat(EID_R, EID_W, 1, 1, 5)),                         # -> ACKNACK + NACK_FRAG(base 1, {})
+             W.msg(S, W.data_frag(EID_R, EID_W, 1, 2, 1, 8, 8, bytes(1))),
+             W.msg(S, W.heartbeat(EID_R, EID_W, 1, 2, 6, final=True)),
+             W.msg(S, W.data(EID_R, EID_W, 1, W.keyed_payload(3, b"xyz"))),     # the sample arrives unfragmented: buffer cleared
+             W.msg(S, W.heartbeat(EID_R, EID_W, 1, 300, 7))]                       # -> ACKNACK base 2 with 256 members
+    nack2 = [W.msg(S, W.data_frag(EID_R, EID_W, 1, 300, 1, 1, 70000, b"z")),      # 70000 fragments expected, number 300 buffered
+             W.msg(S, W.heartbeat(EID_R, EID_W, 1, 1, 5)),                         # -> NACK_FRAG(base 1, 1..256)
+             W.msg(S, W.data_frag(EID_R, EID_W, 1, 1, 1, 1, 70000, b"a")),
+             W.msg(S, W.data_frag(EID_R, EID_W, 1, 2, 1, 1, 70000, b"b")),
+             W.msg(S, W.heartbeat(EID_R, EID_W, 1, 1, 6)),                         # -> NACK_FRAG(base 3, 3..258)
+             W.msg(S, W.nack_frag(EID_R, EID_W, 1, 1, bits=[0, 1, 5], count=4)),   # to V's writer: fragment requests
+             W.msg(S, W.acknack(EID_R, EID_W, 1, bits=[0, 1, 2], count=40)),       # -> DATA 1 resent, GAP for 2 and 3
+             W.msg(S, W.acknack(EID_R, EID_W, 1, bits=[0, 1, 2], count=40)),       # duplicate count: ignored
+             W.msg(S, W.nack_frag(EID_R, EID_W, 1, 1, bits=[0], count=4))]         # duplicate count: ignored
     cs = [(dict(base, probe=1), neighbours(), "neighbours"),
-          (dict(base, probe=1, rel=0, j=1), neighbours(), "neighbours-be")]
+          (dict(base, probe=1, rel=0, j=1), neighbours(), "neighbours-be"),
+          (dict(base, probe=1), nack1, "nack-frag-1"),
+          (dict(base, probe=1, frag=16), nack2, "nack-frag-2")]
     for c, ds in guided()[:0]:
         cs.append((dict(base, probe=0), ds, "guided"))
     return cs
